@@ -50,4 +50,12 @@ Project(r, fields, excl) ==
 DescOf(r) == [i \in DOMAIN r |-> [n |-> r[i].n, t |-> r[i].t]]
 Visible(r, ign) == SelectSeq(r, LAMBDA f : f.n \notin ign)
 Eq(na, a, nb, b, ign) == na = nb /\ DescOf(a) = DescOf(b) /\ Visible(a, ign) = Visible(b, ign)
+\* the same with NESTED records: a value is [k |-> "id", id] (opaque), [k |-> "rec", na, fs] (a record held in a
+\* `record` field) or [k |-> "list", items] (a `record[]` field); the ignored fields are ignored at every depth
+RECURSIVE StripV(_, _), Strip(_, _)
+StripV(v, ign) == CASE v.k = "rec"  -> [v EXCEPT !.fs = Strip(v.fs, ign)]
+                    [] v.k = "list" -> [v EXCEPT !.items = [j \in DOMAIN v.items |-> StripV(v.items[j], ign)]]
+                    [] OTHER -> v
+Strip(fs, ign) == LET vis == Visible(fs, ign) IN [i \in DOMAIN vis |-> [vis[i] EXCEPT !.v = StripV(vis[i].v, ign)]]
+EqN(na, a, nb, b, ign) == na = nb /\ DescOf(a) = DescOf(b) /\ Strip(a, ign) = Strip(b, ign)
 =============================================================================
